@@ -170,7 +170,67 @@ def glyph_masters_section(ctx):
             ctx.corr_mismatch(case, "Gallina collect (Interp/GlyphMasters.v) differs from instantiator.collect_glyph_masters")
 
 
+def two_axis_section(ctx):
+    """Weight x Width families (three masters, or four with the corner), sources in varying order so that the last-listed one
+    is off-default on some axis; instances at full locations AND at locations that leave an axis out (an omitted axis means
+    that axis' default, as generate_instance documents) or are empty.  Expected values: fontTools' VariationModel over the
+    masters' number vectors at the completed location (fontTools only, nothing of ufo2ft)."""
+    from ufo2ft.instantiator import Instantiator
+    from fontTools.designspaceLib import InstanceDescriptor
+    from fontTools.varLib.models import VariationModel
+    rng = ctx.subrng("two-axis")
+    for i in range(ctx.budget(8, 40)):
+        lib = ["ufoLib2", "defcon"][i % 2]
+        base = dsgen.base_master(rng)
+        corner = i % 2 == 1
+        locs = [(100, 100), (900, 100), (100, 200)] + ([(900, 200)] if corner else [])
+        masters = [base] + [dsgen.perturb(rng, base, k) for k in range(1, len(locs))]
+        order = list(range(len(locs)))
+        if i % 4 >= 2:
+            order = order[1:] + order[:1]            # the default source is listed last
+        elif i % 4 == 1:
+            order = [0, 2, 1] + order[3:]
+        ds, fonts_perm = dsgen.make_designspace(rng, [masters[k] for k in order], lib,
+                                                axes=[("Weight", "wght", 100, 100, 900), ("Width", "wdth", 100, 100, 200)],
+                                                locations=[{"Weight": locs[k][0], "Width": locs[k][1]} for k in order], instances=False)
+        fonts = [None] * len(locs)
+        for pos, k in enumerate(order):
+            fonts[k] = fonts_perm[pos]
+        names = [g["name"] for g in base["glyphs"]]
+        kern_keys = sorted(set().union(*[set(m["kerning"]) for m in masters]))
+        vecs = [[float(x) for x in font_vector(f, names, kern_keys)] for f in fonts]
+        norm = lambda w, d: {"wght": (w - 100) / 800, "wdth": (d - 100) / 100}
+        model = VariationModel([norm(*l) for l in locs], ["wght", "wdth"])
+        info = {"source_order": [locs[k] for k in order], "corner_master": corner, "lib": lib}
+        try:
+            inst = Instantiator.from_designspace(ds, round_geometry=False)
+        except Exception as e:
+            ctx.spec_failure(dict(info, font=jsonable(base)), "Instantiator.from_designspace raised %s: %s" % (type(e).__name__, e))
+            continue
+        for given in ({"Weight": 500, "Width": 150}, {"Weight": 900}, {"Weight": 500}, {"Width": 200}, {"Width": 125}, {}, {"Weight": 900, "Width": 200}):
+            full = (given.get("Weight", 100), given.get("Width", 100))
+            d = InstanceDescriptor()
+            d.familyName, d.styleName, d.location = "Fam", "I", dict(given)
+            case = dict(info, font=jsonable(base), masters=[jsonable(m) for m in masters[1:]], instance_location_given=dict(given),
+                        completed_location=full)
+            ctx.count(); ctx.klass("two axes: instance location %s" % ("complete" if len(given) == 2 else "partial" if given else "empty"))
+            ctx.nontriv(("2ax", i, tuple(sorted(given.items())), ctx.scale))
+            try:
+                f = inst.generate_instance(d)
+            except Exception as e:
+                ctx.spec_failure(case, "generate_instance raised %s: %s\n%s" % (type(e).__name__, e, traceback.format_exc()[-800:]))
+                continue
+            obs = [float(x) for x in font_vector(f, names, kern_keys)]
+            want = [model.interpolateFromMasters(norm(*full), [v[j] for v in vecs]) for j in range(len(vecs[0]))]
+            if len(obs) != len(want) or any(abs(a - b) > 1e-6 for a, b in zip(obs, want)):
+                k = next((j for j, (a, b) in enumerate(zip(obs, want)) if abs(a - b) > 1e-6), None)
+                ctx.spec_failure(case, "instance given %r is not the variation model's value at the completed location %r "
+                                       "(first differing number #%s: %r, expected %r)" % (given, full, k, obs[k] if k is not None else None,
+                                                                                          want[k] if k is not None else None))
+
+
 def explore(ctx):
+    two_axis_section(ctx)
     glyph_masters_section(ctx)
     varmodel_section(ctx, "c19")
     from ufo2ft.instantiator import Instantiator, swap_glyph_names
